@@ -670,7 +670,10 @@ var Scenarios = map[string]scenario{
 		if line {
 			name = "stdio.NewIOReaderLine"
 		}
-		lg.Add(rec.Ev{E: "hdr", S: name, K: "reader"})
+		// the byte reader over a reader that ends with io.EOF or with an error of its own, alone or together with its last bytes (cycled with the sizes)
+		ending := (round/2 + round/16) % 4 // shifts against the sizes every 8 pairs of rounds: every size meets every ending
+		failing := !line && ending >= 2
+		lg.Add(rec.Ev{E: "hdr", S: name, K: "reader", B: failing})
 		want := data
 		if line {
 			want = bytes.ReplaceAll(data, []byte("\n"), nil) // the line reader strips the separators
@@ -680,7 +683,11 @@ var Scenarios = map[string]scenario{
 		if line {
 			o = rostdio.NewIOReaderLine(bytes.NewReader(data))
 		} else {
-			o = rostdio.NewIOReader(&slowReader{data: data, r: r})
+			sr := &slowReader{data: data, r: r, withData: ending%2 == 1}
+			if failing {
+				sr.final = fmt.Errorf("reader: connection reset")
+			}
+			o = rostdio.NewIOReader(sr)
 		}
 		in := &interner{ids: map[string]int{}}
 		var chunks [][]byte
@@ -733,14 +740,25 @@ func (s *slowItem) GobDecode(b []byte) error {
 	return err
 }
 
+// slowReader hands its data out in pieces.  final: the error that ends it (nil = io.EOF); withData: the last piece is returned TOGETHER with
+// that error, as the io.Reader contract allows ("callers should always process the n > 0 bytes returned before considering the error").
 type slowReader struct {
-	data []byte
-	r    *rand.Rand
+	data     []byte
+	r        *rand.Rand
+	final    error
+	withData bool
+}
+
+func (s *slowReader) end() error {
+	if s.final != nil {
+		return s.final
+	}
+	return io.EOF
 }
 
 func (s *slowReader) Read(p []byte) (int, error) {
 	if len(s.data) == 0 {
-		return 0, io.EOF
+		return 0, s.end()
 	}
 	n := len(p)
 	if s.r.Intn(3) == 0 {
@@ -751,6 +769,9 @@ func (s *slowReader) Read(p []byte) (int, error) {
 	}
 	copy(p, s.data[:n])
 	s.data = s.data[n:]
+	if len(s.data) == 0 && s.withData {
+		return n, s.end()
+	}
 	return n, nil
 }
 
